@@ -727,6 +727,8 @@ def replay_case(ctx, case):
 def shrink(ctx, case):
     if 'tree' not in case or case.get('algo') == 2:    # codec-2 cases depend on the exact error pattern
         return case
+    if len(case['tree']) > 60:                        # the large-index case: its size IS the point; shrinking would rebuild hundreds of trees
+        return case
 
     def bad(c):
         try:
